@@ -1064,4 +1064,52 @@ theorem returns_elements (K : Consts) (hK : ConstsOk K) (env : Env) (F : FloatLa
           simp [clientReturns, hK.okStatus, hk', hty, hpj, Dec.bind, hk0, hmemE, hmem,
             hel, decRet, hmeta, hrt']
 
+/-! ## batch responses: every entry filed under the caller's key -/
+
+/-- what reading one member of a batch response map needs: the member is not null, its name reads
+as a key (path flavour) that the key type's equality finds among the caller's keys — `orig` — and
+its value decodes -/
+def MemberOk {β : Type} (env : Env) (kt : Ty) (keq : Value → Value → Bool) (callKeys : List Value)
+    (dec : Json.JVal → Dec β) (orig : Bytes → Value) (val : Json.JVal → β) (m : Bytes × Json.JVal) : Prop :=
+  m.2 ≠ .null ∧
+  (∃ kv, ofRes (unmarshalRor2 (pathRCfg env) kt m.1) = .ok kv ∧ callKeys.find? (fun ck => keq ck kv) = some (orig m.1)) ∧
+  dec m.2 = .ok (val m.2)
+
+/-- one map (`results`, `statuses` or `errors`) of a batch response: every member is filed under the
+caller's own key its name is equal to, with its decoded value — as many entries as members, in the
+members' order, none lost, none filed twice -/
+theorem decodeBatchMap_members {β : Type} (env : Env) (kt : Ty) (keq : Value → Value → Bool) (callKeys : List Value)
+    (dec : Json.JVal → Dec β) (orig : Bytes → Value) (val : Json.JVal → β) :
+    ∀ (ms : List (Bytes × Json.JVal)) (seen : List Value),
+      (∀ m ∈ ms, MemberOk env kt keq callKeys dec orig val m) →
+      (ms.map (fun m => orig m.1)).Pairwise (fun a b => keq a b = false) →
+      (∀ s ∈ seen, ∀ m ∈ ms, keq s (orig m.1) = false) →
+      decodeBatchMap env kt keq callKeys dec seen ms = .ok (ms.map (fun m => (orig m.1, val m.2)))
+  | [], _, _, _, _ => by simp [decodeBatchMap]
+  | (k, jv) :: rest, seen, hm, hp, hs => by
+    obtain ⟨hnn, ⟨kv, hkv, hfind⟩, hdec⟩ := hm (k, jv) (List.mem_cons_self ..)
+    simp only [List.map_cons, List.pairwise_cons] at hp
+    have hseen : seen.any (fun s => keq s (orig k)) = false := by
+      rw [List.any_eq_false]
+      intro s hs'
+      simp [hs s hs' (k, jv) (List.mem_cons_self ..)]
+    have ih := decodeBatchMap_members env kt keq callKeys dec orig val rest (orig k :: seen)
+      (fun m hm' => hm m (List.mem_cons_of_mem _ hm')) hp.2
+      (by
+        intro s hs' m hm'
+        rcases List.mem_cons.1 hs' with rfl | hs''
+        · exact hp.1 _ (List.mem_map.2 ⟨m, hm', rfl⟩)
+        · exact hs s hs'' m (List.mem_cons_of_mem _ hm'))
+    have hstep : decodeBatchMap env kt keq callKeys dec seen ((k, jv) :: rest) =
+        (ofRes (unmarshalRor2 (pathRCfg env) kt k)).bind (fun kv =>
+          match callKeys.find? (fun ck => keq ck kv) with
+          | Option.none => .bad
+          | some o =>
+            if seen.any (fun s => keq s o) then .bad
+            else (dec jv).bind (fun v =>
+              (decodeBatchMap env kt keq callKeys dec (o :: seen) rest).bind (fun more => .ok ((o, v) :: more)))) := by
+      cases jv <;> first | exact absurd rfl hnn | rfl
+    rw [hstep, hkv]
+    simp only [Dec.bind, hfind, hseen, Bool.false_eq_true, if_false, hdec, ih, List.map_cons]
+
 end Restli.E2E
